@@ -174,7 +174,7 @@ func Cases(quick bool, seed int64) []Case {
 	nsc := 36
 	repeat := 1
 	if !quick {
-		nsc = 90
+		nsc = 160
 		repeat = 4
 	}
 	scs := scenarios(rng, nsc)
@@ -1117,7 +1117,7 @@ func run(r *core.Run) int {
 		os_ = os_[:40]
 	}
 	r.Set("completion_orders_sample", os_)
-	return r.Finish(r.Pick(500, 3000),
+	return r.Finish(r.Pick(500, 1200),
 		core.Require{Counter: "perm", Why: "no forced-schedule execution"},
 		core.Require{Counter: "callers", Why: "no concurrent-caller execution"},
 		core.Require{Counter: "panic-reached", Why: "no injected panic was ever reached"},
